@@ -234,6 +234,9 @@ pub struct World {
     pub poisoned: bool,
     /// what the owner did last: 0 other, 1 pop, 2 accepted special move
     pub last_owner: u8,
+    /// sparse observation mode (see `Op::SparseOutcomeQueries`)
+    pub sparse_outcome: bool,
+    query_now: bool,
 }
 
 pub fn digest_key(k: &PosKey) -> u64 {
@@ -368,6 +371,8 @@ impl World {
             info: None,
             poisoned: false,
             last_owner: 0,
+            sparse_outcome: false,
+            query_now: false,
         }
     }
 
@@ -472,6 +477,15 @@ impl World {
             Op::EqTwin(v) => self.op_eq_twin(*v),
             Op::RebuildMoves => self.op_rebuild_moves(),
             Op::RebuildUci => self.op_rebuild_uci(),
+            Op::SparseOutcomeQueries => {
+                self.sparse_outcome = true;
+                Ok(Exec::Done)
+            }
+            Op::QueryOutcome => {
+                self.query_now = true;
+                self.stats.hit("op.query-outcome");
+                Ok(Exec::Done)
+            }
             Op::BoardMake(ml) => self.op_board_make(ml),
             Op::FenProbe(s) => self.op_fen_probe(s),
             Op::RawProbe(e) => self.op_raw_probe(e),
@@ -501,7 +515,7 @@ impl World {
                     &[C13]
                 }
             }
-            Op::SetAuto(_) => &[C14],
+            Op::SetAuto(_) | Op::QueryOutcome => &[C14],
             Op::RebuildMoves | Op::Fork | Op::EqTwin(_) => &[C13],
             Op::RebuildUci | Op::Read(_) => &[C17],
             Op::S(_, SOp::TryRaw(_)) | Op::S(_, SOp::Functional(_)) => &[C02],
@@ -650,8 +664,13 @@ impl World {
             let count = self.rc.count_key(&key);
             let info = self.info().clone();
             let exp = OutcomeExpect::of(&info, count);
-            let got = self.chain.calc_outcome();
-            if let Err(e) = exp.judge(got) {
+            let observe = !self.sparse_outcome || self.query_now;
+            self.query_now = false;
+            let got = if observe { self.chain.calc_outcome() } else { None };
+            if !observe {
+                self.stats.hit("probe.step-without-outcome-query");
+            }
+            if let (true, Err(e)) = (observe, exp.judge(got)) {
                 return Err(self.fail(
                     C14,
                     "outcome",
@@ -676,8 +695,8 @@ impl World {
                     ),
                 ));
             }
-            let spy_got = self.spy.calc_outcome();
-            if let Err(e) = exp.judge(spy_got) {
+            let spy_got = if observe { self.spy.calc_outcome() } else { None };
+            if let (true, Err(e)) = (observe, exp.judge(spy_got)) {
                 return Err(self.fail(
                     C14,
                     "outcome",
@@ -1380,14 +1399,16 @@ impl World {
         Ok(Some(c))
     }
 
-    fn op_eq_twin(&mut self, v: u8) -> R {
+    fn op_eq_twin(&mut self, v: u16) -> R {
         if !self.on(C13) {
             return Ok(Exec::Skipped);
         }
         let mut start = self.rc.start;
         let mut moves = self.rc.moves.clone();
         let mut outcome = self.rc.outcome;
-        match v % 8 {
+        let seed = (v / 10) as usize;
+        let mut replay_loosely = false;
+        match v % 10 {
             0 => {}
             1 => {
                 if moves.pop().is_none() {
@@ -1430,14 +1451,50 @@ impl World {
                 }
                 start = crate::full::raw_of_pos(&p);
             }
-            _ => {
+            7 => {
                 // same squares without the en-passant mark (if the start has one)
                 if start.ep_source.is_none() {
                     return Ok(Exec::Skipped);
                 }
                 start.ep_source = None;
             }
+            8 => {
+                // the same moves in another order: swap two consecutive moves of one side
+                // (kept only if the game is still playable that way)
+                let n = moves.len();
+                if n < 3 {
+                    return Ok(Exec::Skipped);
+                }
+                let k = seed % (n - 2);
+                if moves[k] == moves[k + 2] {
+                    return Ok(Exec::Skipped);
+                }
+                moves.swap(k, k + 2);
+                replay_loosely = true;
+            }
+            _ => {
+                // one move somewhere in the middle replaced by another legal move, the rest kept
+                // (if it can still be played)
+                let n = moves.len();
+                if n < 2 {
+                    return Ok(Exec::Skipped);
+                }
+                let k = seed % (n - 1);
+                let b = self.rc.expect_board(k).clone();
+                let info = Info::of(&b);
+                let cur = rmove_of(&moves[k]);
+                let alts: Vec<RMove> = info.legal.iter().copied().filter(|m| *m != cur).collect();
+                if alts.is_empty() {
+                    return Ok(Exec::Skipped);
+                }
+                match crate::full::move_of(&alts[(seed / 7) % alts.len()]) {
+                    Some(a) => moves[k] = a,
+                    None => return Ok(Exec::Skipped),
+                }
+                replay_loosely = true;
+            }
         }
+        let _ = replay_loosely;
         let same_game = start == self.rc.start && moves == self.rc.moves;
         let twin = match self.rebuild_from_moves(start, &moves, outcome, same_game)? {
             Some(t) => t,
@@ -1456,7 +1513,7 @@ impl World {
                     got1,
                     got2,
                     if want { "equal" } else { "not equal" },
-                    v % 8
+                    v % 10
                 ),
             ));
         }
@@ -1490,7 +1547,17 @@ impl World {
                 ));
             }
         }
-        if self.on(C14) {
+        if self.on(C14) && self.sparse_outcome {
+            let ca = self.chain.verif_repeat().count(self.chain.last());
+            let cb = fresh.verif_repeat().count(fresh.last());
+            if ca != cb {
+                return Err(self.fail(
+                    C14,
+                    "repeat-count",
+                    format!("live chain counts {} occurrences of the current position, a rebuilt chain {}", ca, cb),
+                ));
+            }
+        } else if self.on(C14) {
             let a = self.chain.calc_outcome();
             let b = fresh.calc_outcome();
             let ca = self.chain.verif_repeat().count(self.chain.last());
